@@ -1,12 +1,71 @@
 /-
-ArtModel.Ops.Kern — protocol handler(s) for the `kern` operation family.
-Core Lean only.  `none` = malformed line (the driver prints `bad-op`).
+ArtModel.Ops.Kern — protocol handlers for single kernel evaluations (C03).
+Core Lean only.
+
+  kern R fuzzy.choice  ALPHA X W          -> number        (exact rationals)
+  kern R fuzzy.match   D X W              -> number
+  kern R fuzzy.update  BETA X W           -> vector
+  kern R fuzzy.bbox    N W                -> ref;widths
+  kern R fuzzy.shrink  RATIO W            -> vector
+  kern R fuzzy.centre  W                  -> vector         (before de-normalisation)
+  kern R art1.choice   DIM X W | art1.match DIM X W | art1.update L DIM X W | art1.new L DIM X
+  kern R art2.choice   X W     | art2.match ALPHA X W  | art2.update BETA X W
+  kern F sph.choice ALPHA RHAT X W | sph.match RHAT X W | sph.update BETA X W   (IEEE doubles as hex bits)
+`zerodiv` is printed when the Python expression would divide by zero.
 -/
 import ArtModel.Driver
 
 namespace Art.Ops
 
-/-- handler for lines starting with `kern `; `a` = the remaining space-separated fields -/
-def kern (_a : List String) : Option String := none
+open Art.Drv
+
+instance : Transc Float := ⟨Float.sqrt, Float.exp⟩
+
+private def r (s : String) : Option Rat := parseRat s
+private def v (s : String) : Option (List Rat) := parseVec (α := Rat) s
+private def fv (s : String) : Option (List Float) := parseVec (α := Float) s
+private def showR (q : Rat) : String := showRat q
+private def showV (l : List Rat) : String := showVec l
+
+def kernR : List String → Option String
+  | ["fuzzy.choice", a, x, w] => do
+    let a ← r a; let x ← v x; let w ← v w
+    if a + vsum w == 0 then some "zerodiv" else some (showR (fuzzyChoice a x w))
+  | ["fuzzy.match", d, x, w] => do
+    let d ← r d; let x ← v x; let w ← v w
+    if d == 0 then some "zerodiv" else some (showR (fuzzyMatch d x w))
+  | ["fuzzy.update", b, x, w] => do some (showV (fuzzyUpdate (← r b) (← v x) (← v w)))
+  | ["fuzzy.bbox", n, w] => do
+    let bb := fuzzyBBox (← v w) (← n.toNat?)
+    some (showV bb.1 ++ ";" ++ showV bb.2)
+  | ["fuzzy.shrink", q, w] => do some (showV (fuzzyShrink (← r q) (← v w)))
+  | ["fuzzy.centre", w] => do some (showV (fuzzyCentre (← v w)))
+  | ["art1.choice", dim, x, w] => do some (showR (art1Choice (← dim.toNat?) (← v x) (← v w)))
+  | ["art1.match", dim, x, w] => do
+    let x ← v x
+    if vsum x == 0 then some "zerodiv" else some (showR (art1Match (← dim.toNat?) x (← v w)))
+  | ["art1.update", L, dim, x, w] => do
+    let L ← r L; let dim ← dim.toNat?; let x ← v x; let w ← v w
+    if L - 1 + vsum (band' x (w.drop dim)) == 0 then some "zerodiv" else some (showV (art1Update L dim x w))
+  | ["art1.new", L, dim, x] => do
+    let L ← r L; let _dim ← dim.toNat?; let x ← v x
+    if L - 1 + vsum x == 0 then some "zerodiv" else some (showV (art1New L x))
+  | ["art2.choice", x, w] => do some (showR (art2Choice (← v x) (← v w)))
+  | ["art2.match", a, x, w] => do some (showR (art2Match (← r a) (← v x) (← v w)))
+  | ["art2.update", b, x, w] => do some (showV (art2Update (← r b) (← v x) (← v w)))
+  | _ => none
+
+def kernF : List String → Option String
+  | ["sph.choice", a, rh, x, w] => do
+    some (showFloatBits (sphChoice (← parseFloatBits a) (← parseFloatBits rh) (← fv x) (← fv w)))
+  | ["sph.match", rh, x, w] => do some (showFloatBits (sphMatch (← parseFloatBits rh) (← fv x) (← fv w)))
+  | ["sph.update", b, x, w] => do some (showVec (sphUpdate (← parseFloatBits b) (← fv x) (← fv w)))
+  | _ => none
+
+/-- handler for lines starting with `kern ` -/
+def kern : List String → Option String
+  | "R" :: rest => kernR rest
+  | "F" :: rest => kernF rest
+  | _ => none
 
 end Art.Ops
